@@ -10,6 +10,8 @@ from vlib.ops import Engine, engine_known, flush_excluded
 
 ID = "C04"
 LEVEL = "exploration"
+TECHNIQUE = 'model-based testing: bounded-exhaustive single steps + Hypothesis histories against an independent executable model'
+LEVEL_TEXT = 'exploration with an exhaustive part: every forest up to the stated bound x every operation x every documented-valid argument as a single step, plus random histories, compared with an independent model including node identity; complete inside the bound only'
 RULE = (
     "exhaustive part: every ordered forest with <= N uniquely labelled nodes (and every sibling-unique labeling over "
     "{a,b} for <= M nodes, i.e. with clones) x every operation kind x every documented-valid argument combination "
